@@ -1,0 +1,11 @@
+//go:build !verif
+
+// Package verifhook provides trace/gate points for the verification harness. Without the
+// "verif" build tag every point is an empty function.
+package verifhook
+
+// Enabled reports whether the hooks are compiled in.
+const Enabled = false
+
+// At is a no-op in production builds.
+func At(string, ...any) {}
